@@ -18,7 +18,7 @@ type opWeights struct {
 	noBatchGet                               bool // BatchGetItem of absent keys is a listed finding of C19
 }
 
-var genTableNames = []string{"tba", "tbb", "tbc"}
+var genTableNames = []string{"tba", "tbb", "tb.c_2-x"}
 
 // genSpec returns a random table configuration (valid or, rarely, invalid: PROVISIONED without throughput).
 func genSpec(r *rand.Rand, name string) adapt.TableSpec {
@@ -143,7 +143,20 @@ func genItem(r *rand.Rand, spec adapt.TableSpec, salt int) val.Item {
 }
 
 // genOp returns a random operation that the model can follow (no model gaps).
+// genOp draws one operation; a quarter of the data, search and batch requests also ask for the consumed capacity
+// (ReturnConsumedCapacity TOTAL / INDEXES / NONE), which must not change anything the request does or answers.
 func genOp(r *rand.Rand, m *model.Client, w opWeights, salt int) adapt.Op {
+	op := genOpPlain(r, m, w, salt)
+	switch op.Kind {
+	case adapt.OpPut, adapt.OpGet, adapt.OpUpdate, adapt.OpDelete, adapt.OpQuery, adapt.OpScan, adapt.OpBatchWrite, adapt.OpBatchGet:
+		if r.Intn(4) == 0 {
+			op.RetCap = mon.Pick(r, []string{"TOTAL", "INDEXES", "NONE"})
+		}
+	}
+	return op
+}
+
+func genOpPlain(r *rand.Rand, m *model.Client, w opWeights, salt int) adapt.Op {
 	total := w.mgmt + w.data + w.search + w.batch + w.fail + w.helpers
 	k := r.Intn(total)
 	name := mon.Pick(r, genTableNames)
